@@ -290,6 +290,41 @@ def r4_extensive_params_are_volume_integrated(idx, r):
         raise AnalysisError(f"only {n} parameters with extensive units found")
 
 
+def r5_optional_centre(idx, r):
+    """A third core need not have an assembly at its centre. convert() scales the centre only when there is one; the undo
+    looks the centre up by location - a lookup that answers None for an empty location (it returns `dict.get(...)`) - and
+    must not iterate / dereference the answer without testing it, or undoing a conversion of a core with a hole at
+    001-001 stops half-way (copies removed, symmetry reset, record not cleared)."""
+    core = idx.cls("armi.reactor.cores.Core")
+    maynone = set()
+    for name, f in core.methods.items():
+        for x in walk_local(f.node):
+            if isinstance(x, ast.Return) and x.value is not None:
+                v = propagate(x.value, single_assign_env(f.node))
+                if (isinstance(v, ast.Call) and call_attr(v) == "get" and len(v.args) == 1) or (isinstance(v, ast.Constant) and v.value is None):
+                    maynone.add(name)
+    if "getAssemblyWithStringLocation" not in maynone:
+        raise AnalysisError("Core.getAssemblyWithStringLocation no longer answers through dict.get (revisit R13.5)")
+    m = idx.module(GC)
+    n = 0
+    for f in m.all_funcs():
+        for st_ in walk_local(f.node):
+            if not (isinstance(st_, ast.Assign) and len(st_.targets) == 1 and isinstance(st_.targets[0], ast.Name) and isinstance(st_.value, ast.Call) and call_attr(st_.value) in maynone):
+                continue
+            nm = st_.targets[0].id
+            uses = [x for x in walk_local(f.node) if (isinstance(x, ast.For) and isinstance(x.iter, ast.Name) and x.iter.id == nm)
+                    or (isinstance(x, ast.Attribute) and isinstance(x.value, ast.Name) and x.value.id == nm and getattr(x, "lineno", 0) > st_.lineno)]
+            for u in uses:
+                n += 1
+                guarded = any(pol and (norm(t) in (nm, f"{nm} is not None")) for t, pol in path_conditions(f.node, u)) or \
+                    any((not pol) and norm(t) in (f"{nm} is None",) for t, pol in path_conditions(f.node, u))
+                r.require(guarded, f"{f.qualname}:{nm}:{call_attr(st_.value)}:used-only-when-present", f, node=u,
+                          msg=f"`{nm} = ...{call_attr(st_.value)}(...)` is None when the location is empty, and `{norm(u)[:50]}` uses it untested: for a core without an assembly "
+                              "at that location the operation raises TypeError after it has already changed the core")
+    if n < 1:
+        raise AnalysisError("no use of a by-location lookup found in the geometry converters")
+
+
 def run(idx, chk):
     chk.explanation = (
         "C13: in ThirdCoreHexToFullCoreChanger.convert every symmetric location gets exactly one deep-copied, uniquely named, rotated and recorded "
@@ -307,3 +342,5 @@ def run(idx, chk):
                  necessary="'volume and every volume-integrated total are three times the third-core values'; 'rotated into place'")
     chk.run_rule("R13.4", "block parameters with a bare extensive unit (kg, g, W, MW) are declared VOLUME_INTEGRATED", lambda r: r4_extensive_params_are_volume_integrated(idx, r), floor=6,
                  necessary="'every volume-integrated total [is] three times the third-core value': the declaration is what puts a total on the scaled list")
+    chk.run_rule("R13.5", "the answer of a by-location lookup (None for an empty location) is used only after being tested", lambda r: r5_optional_centre(idx, r), floor=1,
+                 necessary="'undoing the conversion returns the core to its previous state' - also for a core without a centre assembly")
